@@ -200,7 +200,7 @@ theorem val_safe (E : RegexEngine) (ic : Bool) (e : Expr) (f : Str) (misc : Opti
       · split at h <;> cases h <;> apply safe_wrapNot
         · simp [safe]
         · exact safe_cmp _ _ _ (by simp)
-  | .tagged, x, h => by simp [parseVal] at h
+  | .tagged _, x, h => by simp [parseVal] at h
   | .str s, x, h => by
     simp only [parseVal] at h
     split at h
